@@ -32,16 +32,16 @@ import (
 type stage int
 
 const (
-	stHeld     stage = iota // before send: the write of the request is stuck in the link, fails at the kill
-	stTorn                  // before send: frame length written, body stuck, fails at the kill
-	stLost                  // before send (from the server's view): write succeeded locally, bytes never arrived
-	stUnacked               // after send: server received (executed) it, sent nothing back
-	stAcked                 // after ack: server acked, client is known to have consumed the ack
-	stAckFly                // ack written by the server right before the kill (may or may not be consumed)
-	stResult                // after result: caller already got the result
-	stResultFly             // result written by the server right before the kill
-	stSentinel              // not a probe: answered immediately
-	numStages  = int(stSentinel)
+	stHeld      stage = iota // before send: the write of the request is stuck in the link, fails at the kill
+	stTorn                   // before send: frame length written, body stuck, fails at the kill
+	stLost                   // before send (from the server's view): write succeeded locally, bytes never arrived
+	stUnacked                // after send: server received (executed) it, sent nothing back
+	stAcked                  // after ack: server acked, client is known to have consumed the ack
+	stAckFly                 // ack written by the server right before the kill (may or may not be consumed)
+	stResult                 // after result: caller already got the result
+	stResultFly              // result written by the server right before the kill
+	stSentinel               // not a probe: answered immediately
+	numStages   = int(stSentinel)
 )
 
 var stageNames = [...]string{"held", "torn", "lost", "unacked", "acked", "ack-inflight", "result", "result-inflight", "sentinel"}
@@ -695,7 +695,7 @@ func runC29(c *mon.Ctx) {
 	// The table.
 	points := []stage{stHeld, stUnacked, stAcked, stResult}
 	pointNames := []string{"before-send", "after-send", "after-ack", "after-result"}
-	variations := c.N(8, 80)
+	variations := c.N(8, 300)
 	var cells []cellSpec
 	for v := 0; v < variations; v++ {
 		for pi, pt := range points {
